@@ -144,6 +144,9 @@ func ctxToHeaders(ctx freighter.Context) http.Header {
 type clientStream[RQ, RS freighter.Payload] struct {
 	streamCore[RS, RQ]
 	sendClosed bool
+	// closed is set once the connection has been shut down after the first terminal
+	// result, so that repeated calls to Receive keep returning that result.
+	closed bool
 }
 
 // Send implements the freighter.ClientStream interface.
@@ -161,6 +164,10 @@ func (s *clientStream[RQ, RS]) Send(req RQ) error {
 func (s *clientStream[RQ, RS]) Receive() (RS, error) {
 	pld, err := s.streamCore.Receive()
 	if err != nil {
+		if s.closed {
+			return pld, err
+		}
+		s.closed = true
 		return pld, errors.Combine(err, s.close())
 	}
 	return pld, nil
